@@ -563,11 +563,18 @@ def run(ctx, rep):
     C.log(f"[C10] exhaustive configs done {tm.s()}s")
 
     # ---------------------------------------------------------------- C. sampled rows: wide grids, random boxes, MLP grid, fit by h
-    def sampled_config(kind, left, right, bits, exact, nrows, family, h_req=None, scalar=False):
+    def sampled_config(kind, left, right, bits, exact, nrows, family, h_req=None, scalar=False, near_dup=False):
         g = make_grid(kind, left, right, bits=None if h_req else bits, h=h_req, scalar=scalar)
         bits = [int(b) for b in g.get_bits_per_variable()]
         n = sum(bits)
         rows = nprng.randint(0, 2, size=(nrows, n)).astype(np.int64)
+        if near_dup:
+            # a converged population: one parent and single-bit mutants of it (leading columns first, then random columns);
+            # every row of a batch is decoded on its own, whatever the other rows are
+            cols = list(range(min(n, (nrows - 4) // 2))) + [rng.randrange(n) for _ in range(nrows)]
+            for i in range(4, nrows):
+                rows[i] = rows[3]
+                rows[i, cols[i - 4]] ^= 1
         rows[0, :] = 0
         rows[1, :] = 1
         pos = 0
@@ -628,6 +635,11 @@ def run(ctx, rep):
         sampled_config(["gray", "binary"][j % 2] if j >= 9 else "gray" if j % 2 == 0 else "binary", left, right, widths, True, 24, "very-wide-exact")
     for w in (33, 40, 50):                               # both codecs at the widths a 32-bit shortcut would break
         sampled_config("gray", [0.0], [float(2 ** w - 1)], [w], True, 24, "very-wide-exact")
+    # long strings (past 53 and 64 bits in total), batches of near-duplicates
+    for widths in ([16] * 5, [8, 16, 3, 40], [16] * 4, [10] * 6, [16] * 12)[:ctx.pick(5, 5)]:
+        left, right, es = exact_box(widths)
+        for kind in ("gray", "binary"):
+            sampled_config(kind, left, right, widths, True, 40, "long-near-duplicates", near_dup=True)
     # random non-dyadic boxes
     for _ in range(ctx.pick(60, 600)):
         nv = rng.randint(1, 3)
